@@ -103,9 +103,6 @@ impl MinCases {
             }
         }
     }
-    pub fn is_empty(&self) -> bool {
-        self.groups.is_empty()
-    }
     pub fn flush(self, rep: &mut mcx::Report) {
         for (g, (_, label, desc, replay, n)) in self.groups {
             rep.count("failing_cases", n);
